@@ -136,3 +136,27 @@ Theorem C07_blocks_of_accepted_position : forall t tg ssize rl d env garb w,
   exists pre rs, reads g = pre ++ rs /\ consistent_snapshot (the_xcfg t tg ssize rl) d L st rs.
 Proof. exact C07_blocks_inst. Qed.
 Print Assumptions C07_blocks_of_accepted_position.
+
+(* unwrap_stackslice's search of the OTHER threads' stacks for a StackSlice's outer frame (a generator
+   running on another thread, extract_since(frame)): the result depends neither on the order in which
+   sys._current_frames() lists the threads nor on where the caller's own entry sits in that order.
+   hits_agree = frames are exclusive to one stack.  Example of the hypotheses: P_Snapshot.ex_search. *)
+Theorem C07_search_order_independent : forall me outer ths ths',
+  Permutation.Permutation ths ths' -> hits_agree me outer ths ->
+  search_others me outer ths = search_others me outer ths'.
+Proof. exact search_order_independent. Qed.
+Print Assumptions C07_search_order_independent.
+
+Theorem C07_search_skips_caller : forall me outer s a b,
+  search_others me outer (a ++ (me, s) :: b) = search_others me outer (a ++ b).
+Proof. exact search_skips_caller. Qed.
+Print Assumptions C07_search_skips_caller.
+
+(* exactness: the outer frame is on another thread's stack => exactly that thread's frames from
+   `outer` inward, outermost first, no error -- wherever that thread and the caller are listed *)
+Theorem C07_search_exact : forall me outer own ths i inner rest,
+  try_from outer own = [] -> hits_agree me outer ths ->
+  In (i, inner ++ outer :: rest) ths -> i <> me -> ~ In outer inner ->
+  unwrap_outer me outer own ths = (outer :: rev inner, false).
+Proof. exact search_exact. Qed.
+Print Assumptions C07_search_exact.
